@@ -12,3 +12,21 @@ unsigned long long verif_dctx_tmpInSize(const LZ4F_dctx* d) { return (unsigned l
 unsigned long long verif_dctx_tmpInTarget(const LZ4F_dctx* d) { return (unsigned long long)d->tmpInTarget; }
 unsigned long long verif_dctx_maxBlockSize(const LZ4F_dctx* d) { return (unsigned long long)d->maxBlockSize; }
 unsigned long long verif_dctx_maxBufferSize(const LZ4F_dctx* d) { return (unsigned long long)d->maxBufferSize; }
+
+/* C08: a decompression context whose internal allocations (tmpIn, tmpOutBuffer) are made with plain
+   malloc (so ASan watches them) and whose requested sizes are recorded, to be compared with the
+   capacities the model - and theorem C08_staging_in_bounds - assume. */
+static size_t verif_alloc_log[64];
+static int verif_alloc_n = 0;
+static void* verif_malloc(void* opaque, size_t s) { (void)opaque; if (verif_alloc_n < 64) verif_alloc_log[verif_alloc_n++] = s; return malloc(s); }
+static void* verif_calloc(void* opaque, size_t s) { (void)opaque; return calloc(1, s); }
+static void verif_free(void* opaque, void* p) { (void)opaque; free(p); }
+LZ4F_dctx* verif_create_dctx(void)
+{
+    LZ4F_CustomMem cmem;
+    cmem.customAlloc = verif_malloc; cmem.customCalloc = verif_calloc; cmem.customFree = verif_free; cmem.opaqueState = NULL;
+    return LZ4F_createDecompressionContext_advanced(cmem, LZ4F_VERSION);
+}
+int verif_alloc_count(void) { return verif_alloc_n; }
+unsigned long long verif_alloc_get(int i) { return (i >= 0 && i < verif_alloc_n) ? (unsigned long long)verif_alloc_log[i] : 0; }
+void verif_alloc_reset(void) { verif_alloc_n = 0; }
